@@ -135,6 +135,28 @@ Definition spec_lookup (env : spec_env) (x : bytes) : outcome value :=
   | _ => Unmodelled
   end.
 
+(* the elements of an array literal, left to right; each must be a simple value *)
+Definition spec_list (f : expr -> outcome value) : list expr -> outcome (list value) :=
+  fix go (l : list expr) : outcome (list value) :=
+    match l with
+    | [] => Ok []
+    | x :: r =>
+        match f x with
+        | Ok v =>
+            if spec_simple v then
+              match go r with
+              | Ok vs => Ok (v :: vs)
+              | Err c => Err c
+              | OutOfFuel => OutOfFuel
+              | Unmodelled => Unmodelled
+              end
+            else Unmodelled
+        | Err c => Err c
+        | OutOfFuel => OutOfFuel
+        | Unmodelled => Unmodelled
+        end
+    end.
+
 Fixpoint spec_eval (env : spec_env) (e : expr) : outcome value :=
   match e with
   | ELit (LInt z) => spec_int z
@@ -197,6 +219,13 @@ Fixpoint spec_eval (env : spec_env) (e : expr) : outcome value :=
           | None => Unmodelled
           end
       | x => x
+      end
+  | EArr es =>                                                     (* only ever the right operand of in / not in *)
+      match spec_list (spec_eval env) es with
+      | Ok vs => Ok (VList LAny vs)
+      | Err c => Err c
+      | OutOfFuel => OutOfFuel
+      | Unmodelled => Unmodelled
       end
   | _ => Unmodelled
   end.
